@@ -596,6 +596,33 @@ tzmccp(FILE *fp)
 	return false;
 }
 
+static const znoff_t*
+tzm_next(tzmap_t m, const znoff_t *p, const znoff_t *ep, const char **zn)
+{
+/* check the record at P, put its zone name into ZN and return the position
+ * of the record behind it, or NULL if this one is broken;
+ * tzm_open() has made sure both areas end in \nul */
+	const size_t mz = strlen((const char*)p);
+	znoff_t off;
+
+	if (UNLIKELY(mz == 0U)) {
+		/* no key */
+		return NULL;
+	}
+	p += (mz - 1U) / sizeof(*p) + 1U;
+	if (UNLIKELY(p >= ep)) {
+		/* key without an offset */
+		return NULL;
+	}
+	off = be32toh(*p++) >> 8U;
+	if (UNLIKELY(off >= tzm_zname_size(m))) {
+		/* offset beyond the name pool */
+		return NULL;
+	}
+	*zn = tzm_znames(m) + off;
+	return p;
+}
+
 static int
 tzm_check(const char *fn)
 {
@@ -614,16 +641,14 @@ tzm_check(const char *fn)
 			(const void*)((const char*)p + tzm_mname_size(m));
 
 		while (p < ep) {
-			const char *mn = (const void*)p;
-			size_t mz = strlen(mn);
-			znoff_t off;
 			const char *zn;
 			size_t zz;
 
-			p += (mz - 1U) / sizeof(*p) + 1U;
-			off = be32toh(*p++) >> 8U;
-
-			zn = m->data + off;
+			if ((p = tzm_next(m, p, ep, &zn)) == NULL) {
+				error("corrupt record in `%s'", fn);
+				rc = -1;
+				break;
+			}
 			zz = strlen(zn);
 			if (!tzdir_zone_p(zn, zz)) {
 				error("cannot find zone `%s' in TZDIR", zn);
@@ -762,16 +787,17 @@ cmd_show(const struct yuck_cmd_show_s argi[static 1U])
 
 		while (p < ep) {
 			const char *mn = (const void*)p;
-			size_t mz = strlen(mn);
-			znoff_t off;
+			const char *zn;
 
-			p += (mz - 1U) / sizeof(*p) + 1U;
-			off = be32toh(*p++) >> 8U;
-
+			if ((p = tzm_next(m, p, ep, &zn)) == NULL) {
+				error("corrupt record in `%s'", fn);
+				rc = 1;
+				break;
+			}
 			/* actually print the strings */
 			fputs(mn, stdout);
 			fputc('\t', stdout);
-			fputs(m->data + off, stdout);
+			fputs(zn, stdout);
 			fputc('\n', stdout);
 		}
 	}
